@@ -259,6 +259,134 @@ fn check_access_map_agg(p: &PlCase, obs: &mut Obs) -> CheckResult {
     Ok(())
 }
 
+/// C02 on a Polars input: the rolling drivers with a recording, stateful callback (returned path;
+/// the *_to forms need `uset`, which the Polars backend documents as unsupported)
+fn check_drivers(p: &PlCase, obs: &mut Obs) -> CheckResult {
+    use std::cell::RefCell;
+    let x = &p.c.x;
+    let ca = chunked(x, &p.cuts);
+    let cb = chunked(&p.y, &[]);
+    classify(p, &ca, obs);
+    let len = x.len();
+    let w = p.c.w;
+    let key = |v: Option<f64>| v.map(|f| f.to_bits()).unwrap_or(u64::MAX);
+    let xb: Vec<u64> = x.iter().map(|v| key(*v)).collect();
+    let yb: Vec<u64> = p.y.iter().map(|v| key(*v)).collect();
+    let rm_idx = |i: usize| if i + 1 >= w { Some(i + 1 - w) } else { None };
+    let unspecified = |i: usize| w > len && i + 1 == len;
+    // rolling_apply
+    let log: RefCell<Vec<(Option<u64>, u64)>> = RefCell::new(vec![]);
+    let out: Vec<i32> = ca
+        .rolling_apply::<Vec<i32>, i32, _>(
+            w,
+            |rm, v| {
+                log.borrow_mut().push((rm.map(key), key(v)));
+                log.borrow().len() as i32 - 1
+            },
+            None,
+        )
+        .unwrap();
+    let l = log.into_inner();
+    if l.len() != len || out.len() != len {
+        return fail("polars:rolling_apply:call-count", format!("{} calls / {} outputs for {} positions", l.len(), out.len(), len));
+    }
+    for i in 0..len {
+        if l[i].1 != xb[i] || (!unspecified(i) && l[i].0 != rm_idx(i).map(|j| xb[j])) || out[i] != i as i32 {
+            return fail("polars:rolling_apply:arguments", format!("call {} on a Polars input (chunks at {:?}, w {}): got {:?}", i, p.cuts, w, l[i]));
+        }
+    }
+    // rolling_apply_idx
+    let log: RefCell<Vec<(Option<usize>, usize, u64)>> = RefCell::new(vec![]);
+    let out: Vec<i32> = ca
+        .rolling_apply_idx::<Vec<i32>, i32, _>(
+            w,
+            |s, e, v| {
+                log.borrow_mut().push((s, e, key(v)));
+                log.borrow().len() as i32 - 1
+            },
+            None,
+        )
+        .unwrap();
+    let l = log.into_inner();
+    if l.len() != len || out.len() != len {
+        return fail("polars:rolling_apply_idx:call-count", format!("{} calls for {} positions", l.len(), len));
+    }
+    for i in 0..len {
+        if l[i].2 != xb[i] || l[i].1 != i || (!unspecified(i) && l[i].0 != rm_idx(i)) || out[i] != i as i32 {
+            return fail("polars:rolling_apply_idx:arguments", format!("call {} (w {}): got {:?}", i, w, l[i]));
+        }
+    }
+    // rolling2_apply / rolling2_apply_idx
+    let log: RefCell<Vec<(Option<(u64, u64)>, (u64, u64))>> = RefCell::new(vec![]);
+    let out: Vec<i32> = ca
+        .rolling2_apply::<Vec<i32>, i32, _, _, _>(
+            &cb,
+            w,
+            |rm, v| {
+                log.borrow_mut().push((rm.map(|r| (key(r.0), key(r.1))), (key(v.0), key(v.1))));
+                log.borrow().len() as i32 - 1
+            },
+            None,
+        )
+        .unwrap();
+    let l = log.into_inner();
+    if l.len() != len || out.len() != len {
+        return fail("polars:rolling2_apply:call-count", format!("{} calls for {} positions", l.len(), len));
+    }
+    for i in 0..len {
+        if l[i].1 != (xb[i], yb[i]) || (!unspecified(i) && l[i].0 != rm_idx(i).map(|j| (xb[j], yb[j]))) || out[i] != i as i32 {
+            return fail("polars:rolling2_apply:arguments", format!("call {} (w {}): got {:?}", i, w, l[i]));
+        }
+    }
+    let log: RefCell<Vec<(Option<usize>, usize, (u64, u64))>> = RefCell::new(vec![]);
+    let _out: Vec<i32> = ca
+        .rolling2_apply_idx::<Vec<i32>, i32, _, _, _>(
+            &cb,
+            w,
+            |s, e, v| {
+                log.borrow_mut().push((s, e, (key(v.0), key(v.1))));
+                log.borrow().len() as i32 - 1
+            },
+            None,
+        )
+        .unwrap();
+    let l = log.into_inner();
+    for i in 0..len {
+        if l.len() != len || l[i].2 != (xb[i], yb[i]) || l[i].1 != i || (!unspecified(i) && l[i].0 != rm_idx(i)) {
+            return fail("polars:rolling2_apply_idx:arguments", format!("call {} (w {})", i, w));
+        }
+    }
+    // slice forms: rolling_custom (returned) and the lazy iterator
+    let log: RefCell<Vec<Vec<u64>>> = RefCell::new(vec![]);
+    let out: Vec<i32> = ca
+        .rolling_custom::<Vec<i32>, i32, _>(
+            w,
+            |s| {
+                log.borrow_mut().push(s.into_iter().map(key).collect());
+                log.borrow().len() as i32 - 1
+            },
+            None,
+        )
+        .unwrap();
+    let l = log.into_inner();
+    if l.len() != len || out.len() != len {
+        return fail("polars:rolling_custom:call-count", format!("{} calls for {} positions", l.len(), len));
+    }
+    for i in 0..len {
+        let lo = (i + 1).saturating_sub(w);
+        if l[i][..] != xb[lo..=i] || out[i] != i as i32 {
+            return fail("polars:rolling_custom:window-slice", format!("call {} (w {}, chunks at {:?}): slice of {} elements", i, w, p.cuts, l[i].len()));
+        }
+    }
+    let lens: Vec<usize> = Iterator::collect(ca.rolling_custom_iter(w, |s| GetLen::len(&s)));
+    for i in 0..len {
+        if lens.len() != len || lens[i] != (i + 1).min(w) {
+            return fail("polars:rolling_custom_iter:window-slice", format!("position {} (w {}): {:?}", i, w, lens));
+        }
+    }
+    Ok(())
+}
+
 fn main() {
     let mut p = Property::new(
         "C07",
@@ -268,5 +396,6 @@ fn main() {
     p.add(sub("polars:rolling", 8000, 200000, pl_case, check_rolling));
     p.add(sub("polars:rolling_two_series", 4000, 100000, pl_case, check_two));
     p.add(sub("polars:accessors_map_agg", 3000, 60000, pl_case, check_access_map_agg));
+    p.add(sub("polars:drivers", 3000, 60000, pl_case, check_drivers));
     main_for(p);
 }
